@@ -480,7 +480,7 @@ def est_pow_iters(base, e, prec):
 def budget_pow(cases, n):
     """mark the cases whose model evaluation would be too slow for the tier as oracle-only ("nomodel"): at most 3000 rounds per
     case and 60 rounds per case on average in the quick tier (thorough: 150000 / 600)"""
-    per_case, avg = (3000, 100) if n <= 1000 else (150000, 600)
+    per_case, avg = (3000, 100) if n <= 1000 else (150000, 200)
     total = 0
     for c in cases:
         a = args_of(c)
@@ -538,9 +538,9 @@ GENERATORS = {
 COUNTS = {"quick": {"sqrt": 1500, "sqrt_bd": 1500, "sigfig": 2500, "cmp_int": 1000, "cmp_bd": 1000, "cmp_dec": 1000,
                     "bsearch": 1500, "bsearch_bd": 800, "exp2": 1500, "log2": 220, "ln": 70, "ticklog": 70, "customlog": 50,
                     "pow": 300, "powapprox": 200, "bd_power": 200},
-          "thorough": {"sqrt": 40000, "sqrt_bd": 40000, "sigfig": 60000, "cmp_int": 30000, "cmp_bd": 30000, "cmp_dec": 30000,
-                       "bsearch": 30000, "bsearch_bd": 16000, "exp2": 100000, "log2": 6000, "ln": 2500, "ticklog": 2500,
-                       "customlog": 2000, "pow": 8000, "powapprox": 5000, "bd_power": 4000}}
+          "thorough": {"sqrt": 30000, "sqrt_bd": 30000, "sigfig": 50000, "cmp_int": 25000, "cmp_bd": 25000, "cmp_dec": 25000,
+                       "bsearch": 25000, "bsearch_bd": 12000, "exp2": 60000, "log2": 4000, "ln": 1500, "ticklog": 1500,
+                       "customlog": 1000, "pow": 6000, "powapprox": 4000, "bd_power": 3000}}
 
 
 def gen_cases(seed, tier, ops=None, scale=1):
@@ -842,6 +842,8 @@ def coq_case(c, flat):
 def model_compare(cases, obs, tag):
     """-> list of indices into cases where model_obs differs from the implementation's flat observation, and error notes"""
     nsh = max(1, min(common.NPROC, len(cases) // 4))
+    if len(cases) > 2500 * common.NPROC:          # thorough tier: keep each generated Coq file below ~2500 cases
+        nsh = common.NPROC * (-(-len(cases) // (2500 * common.NPROC)))
     order = sorted(range(len(cases)), key=lambda i: -OPS[cases[i]["op"]][1])
     shards = [[] for _ in range(nsh)]
     load = [0] * nsh
